@@ -15,6 +15,17 @@ BRIDGE_THEOREMS = [NS + t for t in [
     "witness_newline_in_body",
     "witness_line_starts_inside_char",
     "witness_no_final_newline_inherits",
+    # texts without final newline (lineStepE; /repo fix of the delete direction)
+    "lineStepE_tt",
+    "eof_kept_line_keeps_bytes",
+    "eof_terminator_is_reporters",
+    "eof_open_insert_is_reporters",
+    "regression_delete_around_last_line",
+    "regression_delete_below_last_line",
+    "regression_final_newline_dropped",
+    "regression_both_open_last_line_kept",
+    "witness_eof_append_direction_excluded",
+    "witness_eof_blank_open_insert_inherits",
 ]]
 
 
